@@ -224,11 +224,23 @@ class LocalFileStore(Store):
         p = os.path.join(self._root, "blobs", key)
         return os.path.exists(p)
 
+    def _path_location(self, path: DDSPath) -> str:
+        """
+        The location of a DDS path under the data directory: one sub-directory per segment.
+        """
+        segments = [s for s in path.split("/") if s]
+        if not segments or any(s in (".", "..") for s in segments):
+            raise DDSException(
+                f"Path {path} cannot be stored in {self}: a path needs at least one segment, and "
+                f"the segments '.' and '..' are not allowed",
+                DDSErrorCode.STORE_PATH_NOT_SUPPORTED,
+            )
+        return os.path.join(self._data_root, *segments)
+
     def sync_paths(self, paths: "OrderedDict[DDSPath, PyHash]") -> None:
         for (path, key) in paths.items():
-            splits = [s.replace("/", "") for s in os.path.split(path)]
-            loc_dir = os.path.join(self._data_root, *(splits[:-1]))
-            loc = os.path.join(loc_dir, splits[-1])
+            loc = self._path_location(path)
+            loc_dir = os.path.dirname(loc)
             if not os.path.exists(loc_dir):
                 _logger.debug(f"Creating dir {loc_dir}")
                 os.makedirs(loc_dir)
@@ -246,9 +258,8 @@ class LocalFileStore(Store):
         for path in paths:
             if path not in res:
                 # Assemble the path
-                splits = [s.replace("/", "") for s in os.path.split(path)]
-                loc_dir = os.path.join(self._data_root, *(splits[:-1]))
-                loc = os.path.join(loc_dir, splits[-1])
+                loc = self._path_location(path)
+                loc_dir = os.path.dirname(loc)
                 if not os.path.exists(loc_dir):
                     _logger.debug(f"Dir {loc_dir} does not exist")
                     raise DDSException(
